@@ -45,6 +45,10 @@ type EWCase struct {
 	// "reuse-size": wrong size). The refusal must leave nothing behind: this call neither touches nor
 	// returns that tensor.
 	Pre string `json:"pre,omitempty"`
+	// BSame: the second operand is the first one (the same *Dense passed twice); B repeats A's description
+	BSame bool `json:"bSame,omitempty"`
+	// AlsoUnsafe: UseUnsafe() is passed together with WithReuse (the reuse tensor is still the destination)
+	AlsoUnsafe bool `json:"alsoUnsafe,omitempty"`
 	Tol      float64 `json:"-"`
 	scTensor *tensor.Dense
 	scVal    interface{}
@@ -69,7 +73,7 @@ func (c *EWCase) NTKey() string {
 			return ""
 		}
 	}
-	return fmt.Sprintf("%s|%s|%s|%s|%s|%s|%v|%v|%v|%v|%v|%v|%s", c.Op, c.DT, c.Form, c.Via, c.Mode, c.Engine, c.SameType, c.ScT, c.A.Shape, c.A.L, layoutOf(c.B), layoutOf(c.Dst), c.Pre)
+	return fmt.Sprintf("%s|%s|%s|%s|%s|%s|%v|%v|%v|%v|%v|%v|%s|%v|%v", c.Op, c.DT, c.Form, c.Via, c.Mode, c.Engine, c.SameType, c.ScT, c.A.Shape, c.A.L, layoutOf(c.B), layoutOf(c.Dst), c.Pre, c.BSame, c.AlsoUnsafe)
 }
 
 func layoutOf(o *Opnd) string {
@@ -192,7 +196,10 @@ func (c *EWCase) Run() string {
 	}
 	withEngine(A.b.T, c.Engine)
 	var B *opndB
-	if c.B != nil {
+	if c.B != nil && c.BSame && c.BDT == "" && fmt.Sprint(*c.B) == fmt.Sprint(c.A) {
+		B = A // the very same tensor on both sides
+		rec.Class("operands:same-tensor-twice")
+	} else if c.B != nil {
 		if B, msg = buildOpnd(c.B, bd); msg != "" {
 			return msg
 		}
@@ -307,6 +314,9 @@ func (c *EWCase) Run() string {
 		dstT = Dst.b.T
 		if c.Mode == "reuse" {
 			opts = append(opts, tensor.WithReuse(dstT))
+			if c.AlsoUnsafe {
+				opts = append(opts, tensor.UseUnsafe())
+			}
 		} else {
 			opts = append(opts, tensor.WithIncr(dstT))
 		}
@@ -768,6 +778,9 @@ func avoidF39(c *EWCase) {
 	switch c.Form {
 	case "TT":
 		fix(c.B.Codes)
+		if c.BSame {
+			fix(c.A.Codes) // the divisor IS the dividend
+		}
 	case "TS":
 		c.Scalar = 1
 	case "ST":
